@@ -12,7 +12,7 @@ from .c01 import shape_sig
 
 PROP = 'C04'
 LEVEL = 'exploration'
-N = {'quick': 10000, 'thorough': 100000}
+N = {'quick': 7500, 'thorough': 100000}
 RULE = ('seeded worlds biased to channels absent from segments, multi-chunk segments, zero-length chunks, '
         'interleaved layout and (20%) a cut inside the last segment; per world an explicit list of '
         'read_data(offset,length) windows (all windows for channels of <=24 values in the thorough tier, '
@@ -32,6 +32,7 @@ def opts(tier):
     o.many_segments_p = 0.01
     o.p_none = 0.25
     o.max_chunks = 5
+    o.long_run_p = 0.006
     o.short_last_p = 0.08
     o.equal_shapes_p = 0.2
     return o
